@@ -2,7 +2,7 @@ use crate::document::{as_position, DocumentRequest};
 use color_eyre::eyre::Result;
 use lsp_types::{Position, SemanticToken, SemanticTokens, SemanticTokensParams};
 use spl_frontend::{
-    ast::{AstInfo, GlobalDeclaration, ProcedureDeclaration, TypeDeclaration},
+    ast::{AstInfo, GlobalDeclaration, Identifier, ProcedureDeclaration, TypeDeclaration},
     table::{Entry, GlobalTable, LookupTable},
     tokens::{Token, TokenType},
     AnalyzedSource, ToRange,
@@ -103,8 +103,9 @@ fn collect_type_dec(
     td.info
         .slice(tokens)
         .iter()
-        .filter_map(|token| {
-            let semantic_token = if matches!(&td.name, Some(name) if name.to_range() == token.range)
+        .enumerate()
+        .filter_map(|(index, token)| {
+            let semantic_token = if matches!(&td.name, Some(name) if is_name_token(name, 0, index))
             {
                 Some(create_semantic_token(
                     token,
@@ -146,8 +147,9 @@ fn collect_proc_dec(
     pd.info
         .slice(tokens)
         .iter()
-        .filter_map(|token| {
-            let semantic_token = if matches!(&pd.name, Some(name) if name.to_range() == token.range)
+        .enumerate()
+        .filter_map(|(index, token)| {
+            let semantic_token = if matches!(&pd.name, Some(name) if is_name_token(name, 0, index))
             {
                 Some(create_semantic_token(
                     token,
@@ -173,7 +175,8 @@ fn collect_proc_dec(
                         SemanticTokenModifier::None.into(),
                     ),
                     Entry::Variable(variable) => {
-                        let modifier = if variable.name.to_range() == token.range {
+                        let modifier = if is_name_token(&variable.name, variable.range.start, index)
+                        {
                             SemanticTokenModifier::Declaration
                         } else {
                             SemanticTokenModifier::None
@@ -187,7 +190,7 @@ fn collect_proc_dec(
                         )
                     }
                     Entry::Parameter(param) => {
-                        let modifier = if param.name.to_range() == token.range {
+                        let modifier = if is_name_token(&param.name, param.range.start, index) {
                             SemanticTokenModifier::Declaration
                         } else {
                             SemanticTokenModifier::None
@@ -210,6 +213,14 @@ fn collect_proc_dec(
             semantic_token
         })
         .collect()
+}
+
+/// True if the token at `index` (relative to the enclosing global declaration)
+/// is the identifier token of `name`,
+/// whose range is relative to a declaration starting at `declaration_start`.
+/// The identifier is the last token of its range (which might contain comments).
+fn is_name_token(name: &Identifier, declaration_start: usize, index: usize) -> bool {
+    declaration_start + name.to_range().end == index + 1
 }
 
 fn collect_error(
